@@ -60,6 +60,16 @@ def has_inner_keyref(xsd):
 IDENT_MARKS = ("not found for Xsd", "duplicated value", "missing key field")
 
 
+UNDECLARED = ("{urn:X}wrap", "{urn:X}unk")      # elements of the Validator documents that have no declaration
+
+
+def inside_undeclared(path, depth):
+    """The error is located strictly inside a streamed element (at depth + 1 steps) that no declaration matches: with
+    such an element skipped (F-C06-h) nothing below it is assessed either."""
+    steps = path.strip("/").split("/")
+    return len(steps) > depth + 1 and steps[depth].split("[")[0] in UNDECLARED
+
+
 def compare_errors(l_errors, e_errors, depth, inner_keyref=False, padded=False):
     """-> None | (kind, finding id).  F-C06-e: the errors of the elements ABOVE the streamed depth (the root's
     attributes with lazy=1) are reported after the errors of the chunks instead of before them; the two
@@ -90,8 +100,8 @@ def compare_errors(l_errors, e_errors, depth, inner_keyref=False, padded=False):
                 missing.remove(x)
             else:
                 return "errors", None
-        if missing and all(x[0].count("/") == depth + 1 and "' not found" in x[1] and x[1].startswith("element ")
-                           for x in missing):
+        if missing and all((x[0].count("/") == depth + 1 and "' not found" in x[1] and x[1].startswith("element "))
+                           or inside_undeclared(x[0], depth) for x in missing):
             return "errors", "F-C06-h"
         return "errors", None
 
@@ -172,7 +182,7 @@ def judge(job):
         if l_valid != e_valid:
             c0 = compare_errors(l_errors, e_errors, 1, padded=about.startswith("identity-padded"))
             out.append((about, tag, f"is_valid={l_valid}, fully loaded: {e_valid}", None,
-                        "F-C06-j" if c0 and c0[1] == "F-C06-j" and l_valid == (not l_errors) else None))
+                        c0[1] if c0 and c0[1] in ("F-C06-j", "F-C06-h") and l_valid == (not l_errors) else None))
         cmp = compare_errors(l_errors, e_errors, 1, padded=about.startswith("identity-padded"))
         if cmp:
             out.append((about, tag, f"errors {l_errors} vs fully loaded {e_errors}"[:900], cmp[0], cmp[1]))
@@ -188,6 +198,9 @@ def judge(job):
                 fid = "F-C06-n"     # constraints declared above the streamed depth are not evaluated by lazy DECODING
             elif not missing and all("is not an element of the schema" in x for x in extra):
                 fid = "F-C06-o"     # an undeclared streamed element gets an additional error of its own
+            elif "x:wrap" in xml and all("is not an element of the schema" in x for x in extra) and \
+                    missing == ["invalid literal for int() with base 10: 'x'"]:
+                fid = "F-C06-h"     # ... and what is inside it (x:num under the undeclared x:wrap) is not assessed
             out.append((about, tag, f"lax decoding reports {l_derrs}, fully loaded: {e_derrs}"[:700], "decode-errors",
                         fid))
         if not same_data(l_data, e_data):
@@ -287,6 +300,12 @@ def known(kind, what, about="", lazy=None, eager=None):
     if kind == "data" and isinstance(eager, dict) and isinstance(lazy, dict) \
             and strip_inner_xmlns(eager) != eager and same_data(lazy, strip_inner_xmlns(eager)):
         return "F-C06-m"
+    # F-C06-h (second manifestation): the undeclared wrapper x:wrap of a lax wildcard is skipped at the streamed depth:
+    # the lazy data lack it (and the xmlns declarations written on it); everything else is the same
+    if kind == "data" and isinstance(eager, dict) and isinstance(lazy, dict) and "x:wrap" in eager:
+        cut = {k: v for k, v in eager.items() if k != "x:wrap"}
+        if same_data(lazy, cut) or same_data(lazy, strip_inner_xmlns(cut)):
+            return "F-C06-h"
     if kind == "data" and about.startswith("namespaces") and isinstance(eager, dict):
         def attrs(d):
             return {k: v for k, v in (d or {}).items() if k.startswith("@") and not k.startswith("@xmlns")}
